@@ -10,7 +10,7 @@ use crate::examples::msa_account::MultisigContract;
 use crate::examples::threshold_policy::ThresholdPolicyContract;
 use crate::report::Report;
 use crate::rng::Rng;
-use crate::world::{invoke, tag, Fail, Inv, World};
+use crate::world::{Must, invoke, tag, Fail, Inv, World};
 use crate::Cfg;
 use soroban_sdk::auth::{Context, ContractContext, ContractExecutable, CreateContractHostFnContext, CreateContractWithConstructorHostFnContext};
 use soroban_sdk::xdr::{self, Limits, ScVal, ToXdr, WriteXdr};
@@ -58,7 +58,7 @@ fn read_rules(u: &U) -> Vec<MRule> {
     let e = &u.w.env;
     let mut out = vec![];
     for t in all_types(u) {
-        let rs: SVec<ContextRule> = invoke(e, &u.account, "get_context_rules", args!(e, t.clone())).expect("get_context_rules");
+        let rs: SVec<ContextRule> = invoke(e, &u.account, "get_context_rules", args!(e, t.clone())).must("get_context_rules");
         for r in rs.iter() {
             out.push(MRule { id: r.id, ctype: r.context_type.clone(), signers: r.signers.iter().collect(), policies: r.policies.iter().collect(), valid_until: r.valid_until });
         }
